@@ -395,19 +395,31 @@ var registerModel = porcupine.Model{
 func checkConc(c ConcCase) error {
 	vt.Journal(prop, "TestLinearizable", "C14:process-died", c)
 	defer vt.JournalDone(prop, "TestLinearizable")
-	_, bomb, _, clients, cleanup, err := setup(len(c.Workers) + 1)
+	_, bomb, sid, clients, cleanup, err := setup(len(c.Workers) + 1)
 	if err != nil {
 		return vt.Violationf("C14:setup", "%v", err)
 	}
 	defer cleanup()
-	// one extra client subscribes to the change events
+	// one extra client observes the change events, frame by frame on a raw
+	// connection: the generated subscription pipeline sheds events when its
+	// 100-message queue overflows (that is C13's business, see its known
+	// finding), and bursts of writes would make this check depend on it
 	obs := clients[len(c.Workers)]
-	_, ch, err := obs.proxy.SubscribeDelay()
-	if err != nil {
-		return vt.Violationf("C14:subscribe-error", "%v", err)
+	reg := binary.LittleEndian.AppendUint32(nil, 1)
+	reg = binary.LittleEndian.AppendUint32(reg, 101)
+	reg = binary.LittleEndian.AppendUint64(reg, 424242)
+	if f, ok := obs.raw.CallWait(sid, 1, 0, reg, bound); !ok || f.Type != netkit.Reply {
+		return vt.Violationf("C14:subscribe-error", "registerEvent(delay): %v", f)
 	}
-	sub := &subscriber{ch: ch}
-	go sub.run()
+	events := func() []int32 {
+		var out []int32
+		for _, f := range obs.raw.Frames() {
+			if f.Type == netkit.Event && f.Service == sid && f.Object == 1 && f.Action == 101 && len(f.Payload) == 4 {
+				out = append(out, int32(binary.LittleEndian.Uint32(f.Payload)))
+			}
+		}
+		return out
+	}
 	var clk int64
 	var cmu sync.Mutex
 	now := func() int64 { cmu.Lock(); defer cmu.Unlock(); clk++; return clk }
@@ -472,15 +484,16 @@ func checkConc(c ConcCase) error {
 		}
 	}
 	// events: the multiset of event payloads equals the multiset of accepted writes
-	if _, err := obs.proxy.GetDelay(); err != nil {
-		return vt.Violationf("C14:get-error", "barrier: %v", err)
+	// every event was written to the observer's connection before the answer
+	// to a call made after the last write
+	if f, ok := obs.raw.CallWait(sid, 1, 2, []byte{1, 0, 0, 0}, bound); !ok || f.Type != netkit.Reply {
+		return vt.Violationf("C14:get-error", "barrier: %v", f)
 	}
 	deadline := time.Now().Add(bound)
-	for len(sub.got()) < len(writes) && time.Now().Before(deadline) {
+	for len(events()) < len(writes) && time.Now().Before(deadline) {
 		time.Sleep(100 * time.Microsecond)
 	}
-	time.Sleep(300 * time.Microsecond)
-	got := sub.got()
+	got := events()
 	a, b := append([]int32{}, got...), append([]int32{}, writes...)
 	sort.Slice(a, func(i, j int) bool { return a[i] < a[j] })
 	sort.Slice(b, func(i, j int) bool { return b[i] < b[j] })
